@@ -105,7 +105,8 @@ DiagCollect ==
        [] Ev.items[i].cls = "meta"  -> ":regex-chars"
        [] Ev.items[i].cls = "deep"  -> ":deep-path-argument"
        [] Ev.items[i].cls = "digit-name" -> ":digit-in-name"
-       [] OTHER -> "")
+       [] OTHER -> "") \o
+    (IF Ev.entry = "collect" THEN ":through-collect-entry-point" ELSE "")
 
 (* ------------------------------------------------------------------------ *)
 Accepts ==
